@@ -33,28 +33,28 @@ CHECKS.update({
          SYM + " with an explicit scheduler over goroutine interleavings and pool choices, native replay with GOMAXPROCS(1)", "DESIGN.md §C03"),
  "C04": ("Bounded model checking of the real AsyncLogger (Start worker, Append, Write, onBufferFull, Stop) under a cooperative scheduler: all interleavings within the pre-emption bound of 1..2 producers with the worker, 3 policies, capacity 1..2, arbitrary int32 levels; exact conservation oracle.",
          SYM + " with an explicit scheduler over goroutine interleavings", "DESIGN.md §C04"),
- "C05": ("Bounded model checking of Stop for the async logger at every buffer occupancy/worker state, and of Start/log/Stop for every logger kind by direct construction (incl. rolling-file logger sync/async x policies x separate) against the file-system model: Stop returns (no BLOCKED/DIVERGE), everything accepted is in the target, no descriptor stays open.",
+ "C05": ("Bounded model checking of Stop for the async logger at every buffer occupancy/worker state, and of Start/log/Stop for every logger kind by direct construction (incl. rolling-file logger sync/async x policies x separate) against the file-system model: Stop returns (no BLOCKED/DIVERGE), everything accepted is in the target, no descriptor stays open; Destroy after a real Refresh; at most two descriptors on a rolling appender with two concurrent writers.",
          SYM + " with an explicit scheduler and a file-system model, native replay for the logger-kind harness", "DESIGN.md §C05"),
  "C12": ("Bounded symbolic execution of raw Write through the named handle for sync (1..3 references with arbitrary ranges, arbitrary payload bytes) and async loggers (caller overwrites its buffer after Write returns).",
          SYM + ", native replay for the sync harness", "DESIGN.md §C12"),
  "C13": ("Bounded symbolic execution of RollingFileAppender.Start/Write/rotate/createFile/Stop against a file-system model under a symbolic clock (every reading an arbitrary non-decreasing instant, LIA-encoded): each write whole, exactly once, in the file created in its interval; names = FileName.<timestamp of the creating reading>; restart appends.",
          SYM + ", symbolic clock (LIA) and file-system model", "DESIGN.md §C13"),
- "C14": ("Bounded symbolic execution of clearExpiredFiles over a symbolic directory (arbitrary name bytes, ages, max age, clock reading) in the file-system model; removed iff regular file named FileName.<14 digits> older than max age. Counterexamples are replayed on a real temporary directory.",
+ "C14": ("Bounded symbolic execution of clearExpiredFiles over a symbolic directory (arbitrary name bytes, ages, max age, clock reading) in the file-system model; removed iff regular file named FileName.<14 digits> older than max age; scan histories (missing/empty directory first, files expiring or rewritten between scans), file names with pattern characters. Counterexamples are replayed on a real temporary directory.",
          SYM + ", file-system model, native replay on a real directory", "DESIGN.md §C14"),
  "C19": ("Bounded symbolic execution of the rolling appender with a fault bit on every OpenFile and Write (path-split) under a symbolic clock, plus file/console appenders with failed Start, closed file or failing stream: never panics or blocks, keeps the current file, retries creation at the next boundary only.",
          SYM + ", fault enumeration via path-split fault bits, symbolic clock and file-system model", "DESIGN.md §C19"),
- "C20": ("Symbolic execution of sync logger -> file/rolling/console appender for both layouts with the target inspected in the file-system model immediately after every acknowledged call (every crash point between calls): the complete line is already in the target.",
+ "C20": ("Symbolic execution of sync logger -> file/rolling/console appender for both layouts with the target inspected in the file-system model immediately after every acknowledged call (every crash point between calls, every level mix, 3 concurrent callers, open faults, rotation with retention): the complete line is already in the target.",
          SYM + ", file-system model observed at every return point", "DESIGN.md §C20"),
 })
 
 CHECKS.update({
- "C06": ("Bounded model checking of the real AsyncLogger against an executable FIFO queue model with a single-stepped worker (gated appender): every operation sequence within the bound over {append event, raw write, worker takes one}, 3 policies, capacity 1..2; plus per-producer delivery order under all explored schedules of 1..2 producers.",
+ "C06": ("Bounded model checking of the real AsyncLogger against an executable FIFO queue model with a single-stepped worker (gated appender): every operation sequence within the bound over {append event, raw write, worker takes one}, 3 policies, capacity 1..2; per-producer delivery order under all explored schedules of 1..2 producers; DiscardOldest keeps arriving items under contention; small and 70 000-byte raw writes; the async rolling-file logger keeps policy and file order.",
          SYM + " with an explicit scheduler; executable queue-model oracle", "DESIGN.md §C06"),
  "C11": ("Symbolic execution of the 15 entry points, record and FastCaller over the interpreter's own call stack (runtime.Caller/Callers/CallersFrames resolve frames of the interpreted stack), all call shapes and both lookup modes, Record with an arbitrary skip; sampled paths and every counterexample are re-run natively against the real runtime.",
          SYM + " over a modelled call stack, native replay against the real runtime", "DESIGN.md §C11"),
  "C15": ("Bounded symbolic execution of toCamelKey on generated key spellings, and of the real Refresh/NewPlugin/inject/injectAttribute/injectElement (through a reflect shim over interpreter values) for every registered logger x appender type x 12 configuration variants and for attribute resolution (configured / default / ${key} / key spellings / inline 'name!' form).",
          SYM + " incl. a reflect shim, native replay", "DESIGN.md §C15"),
- "C16": ("Bounded model checking of the lifecycle: every operation sequence within the bound over Refresh (valid sync/async, invalid early/late), Destroy, logging via tag at an arbitrary level, writing via handle, registration, on the real package globals with the real Refresh/Destroy, against a reference state machine.",
+ "C16": ("Bounded model checking of the lifecycle: every operation sequence within the bound over Refresh (valid sync/async, invalid early/late), Destroy, logging via tag at an arbitrary level, writing via handle, registration, on the real package globals with the real Refresh/Destroy, against a reference state machine; every pair of valid configurations (sync/async x three routings) around a Destroy.",
          SYM + " over operation histories, reference state machine, native replay", "DESIGN.md §C16"),
  "C17": ("Bounded symbolic execution of the real expr.Parse INCLUDING the ANTLR-generated lexer/parser and the ANTLR runtime (executed from SSA): totality on every string up to the bound over a 15-symbol alphabet; exact flattening of grammar-generated expressions against a reference flattener; every string literal shape the lexer admits.",
          SYM + " of the real ANTLR recogniser, reference flattener oracle, native replay", "DESIGN.md §C17"),
